@@ -51,7 +51,9 @@ Read(u) ==                      \* get_bytes on a content of pack u
   IF ~Opens THEN "err"
   ELSE IF P!Locate(u) = "missing" THEN "missing"
   ELSE IF dam[u] = "structure" THEN "err"
-  ELSE IF dam[u] = "content" THEN "differs_or_err"
+  ELSE IF dam[u] = "content" THEN "any_but_checked"   \* cluster data is not covered by a CRC: the bytes read may differ, be
+                                                      \* refused by the decoder, or (a bit the codec ignores) be the same;
+                                                      \* what is required is that the check does not say true
   ELSE "logical"
 PackCheck(u) == IF dam[u] \in {"structure", "content"} THEN "not_true" ELSE "true"
 Check ==                        \* Container::check
@@ -63,9 +65,9 @@ Check ==                        \* Container::check
 (* ------------------------------------------------------------------ end-to-end properties *)
 ReadIsLogicalOrReported ==
   entry # "" => \A u \in ContentPacks :
-    /\ Read(u) \in {"logical", "missing", "err", "differs_or_err"}
+    /\ Read(u) \in {"logical", "missing", "err", "any_but_checked"}
     /\ (Read(u) = "missing") <=> (Opens /\ ~P!Available(u))
-    /\ (Read(u) = "differs_or_err") => Check = "not_true"
+    /\ (Read(u) = "any_but_checked") => Check = "not_true"
 CheckIsSound ==
   (entry # "" /\ Check = "true") => \A u \in ContentPacks : P!Available(u) => Read(u) = "logical"
 RelocationIsNeutral ==          \* the exempt bytes are exactly what a relocation rewrites
